@@ -243,14 +243,17 @@ class Batch:
                 return
         pre = []
         text = csrc(c, pre)
-        self.cases.append('\n'.join(pre + vpre + ['let x :: %s = %s;' % (text, expr)]))
-        self.meta.append((c, v, form))
+        self.add_program('\n'.join(pre + vpre + ['let x :: %s = %s;' % (text, expr)]), admits(c, v), form)
+
+    def add_program(self, src, ok, form, files=None):
+        """a whole program that must build iff `ok`; files = {absolute path: content} it imports"""
+        self.cases.append(src)
+        self.meta.append((ok, form, files))
 
     def run(self, name, bound):
         res = R.driver('buildfile', self.cases)
-        bound = bound + (' [%d pairs skipped: KNOWN static-only exemplar defect]' % self.skipped if self.skipped else '')
-        for src, (c, v, form), (st, out) in zip(self.cases, self.meta, res):
-            ok = admits(c, v)
+        bound = bound + (' [%d pairs skipped: KNOWN defects, see the KNOWN list]' % self.skipped if self.skipped else '')
+        for src, (ok, form, files), (st, out) in zip(self.cases, self.meta, res):
             exp = 'builds' if ok else 'build error with a diagnostic'
             bad = None
             if st not in ('OK', 'ERR'):
@@ -262,9 +265,13 @@ class Batch:
             elif not ok and not out.strip():
                 bad = 'rejected without a diagnostic'
             if bad:
+                inp = dict(source=src, expected=exp, observed='%s %s' % (st, out[:300]), how=HOW, value_form=form)
+                if files:
+                    inp['files'] = files
+                    inp['how'] = HOW + '; the imported files (key = path, value = content) must exist'
                 return dict(name=name, bound=bound, cases=len(self.cases), status='violation',
-                            detail='`%s`: %s' % (src.replace('\n', ' '), bad),
-                            input=dict(source=src, expected=exp, observed='%s %s' % (st, out[:300]), how=HOW, value_form=form))
+                            detail='`%s`%s: %s' % (src.replace('\n', ' '), ''.join(' [%s = `%s`]' % (p, t.strip().replace('\n', ' ')) for p, t in (files or {}).items()), bad),
+                            input=inp)
         return dict(name=name, bound=bound, cases=len(self.cases), status='ok')
 
 
@@ -554,4 +561,162 @@ def standin_recursive_documented(tier, seed):
     return dict(name='recursive_documented', bound=bound, cases=len(cases), status='ok')
 
 
-STANDINS = [standin_exemplar_shapes, standin_range_bounds, standin_alternations, standin_recursive_documented]
+# ------------------------------------------------------------------ family 5: a named constraint reached through an expression
+# "A named constraint behaves exactly like the same constraint written inline" - whatever expression names it in constraint
+# position.  The grammar of HEAD accepts after `::` a name, a parenthesised expression (so every selector / import needs
+# parentheses: `:: t.f` and `:: (in 1..3)` are parse errors and not in the family), a call, a module instantiation and a
+# select; a range can only be written in a `constraint` statement or inline, so the constraint is always defined by a statement
+# and then handed around as a value.
+LOOSE_REACH = {'identity', 'func_of_field', 'select_two', 'heterolist'}
+
+
+def reach(form, defs, n, libpath):
+    """How constraint `n` (defined by the statements `defs`) is reached: -> (statements before the let, constraint expression,
+    content of the imported file or None).  Forms in LOOSE_REACH give the constraint expression an unknown / union static type."""
+    body = ' '.join(defs)
+    imp = 'let lib = import "%s";' % libpath
+    top = lambda stmts, expr: (defs + stmts, expr, None)
+    lib = lambda stmts, expr, more=(): (stmts, expr, '\n'.join(defs + list(more)) + '\n')
+    t = {
+        'name': lambda: top([], n),
+        'paren': lambda: top([], '(%s)' % n),
+        'paren2': lambda: top([], '((%s))' % n),
+        'let_alias': lambda: top(['let al = %s;' % n], 'al'),
+        'constraint_alias': lambda: top(['constraint al = %s;' % n], 'al'),
+        'alias_chain': lambda: top(['let al = %s;' % n, 'constraint am = al;', 'let an = (am);'], 'an'),
+        'field': lambda: top(['let kt = {f = %s, g = "other"};' % n], '(kt.f)'),
+        'quoted_field': lambda: top(['let kt = {f = %s};' % n], '(kt."f")'),
+        'nested_field': lambda: top(['let kt = {f = {g = %s}};' % n], '(kt.f.g)'),
+        'copied_field': lambda: top(['let k0 = {f = %s};' % n, 'let kt = k0{h = 1};'], '(kt.f)'),
+        'list_elem0': lambda: top(['let kl = [%s, %s];' % (n, n)], '(kl.0)'),
+        'list_elem1': lambda: top(['let kl = [%s, %s];' % (n, n)], '(kl.1)'),
+        'tuple_in_list': lambda: top(['let kl = [{f = %s}];' % n], '(kl.0.f)'),
+        'constfunc': lambda: top(['let kf = func() => %s;' % n], 'kf()'),
+        'constfunc_paren': lambda: top(['let kf = func() => %s;' % n], '(kf())'),
+        'func_returning_field': lambda: top(['let kt = {f = %s};' % n, 'let kf = func() => kt.f;'], 'kf()'),
+        'select': lambda: top([], 'select (true, %s) => {true = %s}' % (n, n)),
+        'select_paren': lambda: top([], '(select ("a", %s) => {a = %s})' % (n, n)),
+        'select_default': lambda: top([], 'select ("zz", %s) => {a = %s}' % (n, n)),
+        'module_param': lambda: top(['let km = module {p = %s} => (r) { let r = mod.p; };' % n], 'km{}'),
+        'module_out': lambda: ([('let km = module {} => (r) { %s let r = %s; };' % (body, n))], 'km{}', None),
+        'module_out_paren': lambda: ([('let km = module {} => (r) { %s let r = %s; };' % (body, n))], '(km{})', None),
+        'module_field': lambda: ([('let km = module {} => { %s let r = %s; };' % (body, n))], '(km{}.r)', None),
+        'module_instance_field': lambda: ([('let km = module {} => { %s let r = %s; };' % (body, n)), 'let ki = km{};'], '(ki.r)', None),
+        'import_field': lambda: lib([imp], '(lib.%s)' % n),
+        'import_inline': lambda: lib([], '((import "%s").%s)' % (libpath, n)),
+        'import_alias': lambda: lib([imp, 'let al = lib.%s;' % n], 'al'),
+        'import_nested': lambda: lib([imp], '(lib.kt.f)', ['let kt = {f = %s};' % n]),
+        'import_in_tuple': lambda: lib([imp, 'let kt = {f = lib.%s};' % n], '(kt.f)'),
+        'import_func': lambda: lib([imp, 'let kf = func() => lib.%s;' % n], 'kf()'),
+        # unknown / union static type of the constraint expression: only the VM can check
+        'identity': lambda: top(['let kf = func(a) => a;'], 'kf(%s)' % n),
+        'func_of_field': lambda: top(['let kf = func(t) => t.f;'], 'kf({f = %s})' % n),
+        'select_two': lambda: top([], 'select (true, %s) => {true = %s, false = "w"}' % (n, n)),
+        'heterolist': lambda: top(['let kl = [%s, "w"];' % n], '(kl.0)'),
+    }
+    return t[form]()
+
+
+REACH_FORMS = ['name', 'paren', 'paren2', 'let_alias', 'constraint_alias', 'alias_chain', 'field', 'quoted_field', 'nested_field', 'copied_field',
+               'list_elem0', 'list_elem1', 'tuple_in_list', 'constfunc', 'constfunc_paren', 'func_returning_field', 'select', 'select_paren', 'select_default',
+               'module_param', 'module_out', 'module_out_paren', 'module_field', 'module_instance_field',
+               'import_field', 'import_inline', 'import_alias', 'import_nested', 'import_in_tuple', 'import_func',
+               'identity', 'func_of_field', 'select_two', 'heterolist']
+REACH_RANGES = [('rng', 'int', 1, 3), ('rng', 'int', 1, None), ('rng', 'int', None, 3), ('rng', 'int', -2, 2), ('rng', 'int', 0, 0), ('rng', 'int', 1, 65535),
+                ('rng', 'float', 1.5, 3.5), ('rng', 'float', None, 2.5), ('rng', 'float', 0.0, 1.0)]
+REACH_ALTS = [('alt', [('ex', I(1)), ('ex', S('a'))]), ('alt', [('ex', S('a')), ('ex', S('b'))]), ('alt', [('ex', I(200)), ('ex', I(404)), ('ex', I(500))]),
+              ('alt', [('rng', 'int', 1, 3), ('ex', I(8080)), ('ex', S('none'))]), ('alt', [('rng', 'int', 1, 10), ('rng', 'int', 20, 30)]),
+              ('alt', [('ex', F(1.5)), ('ex', B(True))]), ('alt', [('ex', T(('a', I(1)))), ('ex', L(I(1)))]),
+              ('alt', [('named', ('rng', 'int', 5, 7)), ('ex', I(9))]), ('alt', [('rng', 'float', 1.5, 2.5), ('named', ('alt', [('ex', S('x')), ('ex', S('y'))]))])]
+REACH_EXEMPLARS = [I(0), S(''), F(0.0), B(False), T(('a', I(0)), ('b', S(''))), L(I(0)), T(('a', T(('b', L(S(''))))), ('c', B(True))), L(T(('a', I(0))))]
+SPELL_ARM = S('zz9')
+
+
+def reach_values(K, rnd, n):
+    """the values that decide K (boundaries, literals and their neighbours, other types)"""
+    if K[0] == 'rng':
+        vs = range_values(K[1], K[2], K[3])
+        edge = [v for v in vs if v[0] == K[1] and any(b is not None and abs(v[1] - b) <= 1 for b in (K[2], K[3]))]
+    elif K[0] == 'alt':
+        vs = relevant(K[1], rnd, 2)
+        edge = [v for v in vs if not admits(K, v) and any(compat(a[1], v) for a in flat_arms(K) if a[0] in ('ex', 'letex'))] + [v for v in vs if admits(K, v)][:2]
+    else:
+        e = K[1]
+        vs = dedup([e, bump(e)] + mutants(e) + POOL)
+        edge = [e, bump(e)] + mutants(e)[:3]
+    if n is None or len(vs) <= n:
+        return vs
+    edge = dedup(edge)
+    keep = edge if len(edge) <= n - 1 else rnd.sample(edge, n - 1)
+    rest = [v for v in vs if v not in keep]
+    return keep + rnd.sample(rest, min(len(rest), n - len(keep)))
+
+
+def standin_named_reach(tier, seed):
+    import os, shutil, tempfile
+    rnd = random.Random(seed)
+    thorough = tier == 'thorough'
+    libdir = tempfile.mkdtemp(prefix='verif_c06_')
+    files = {}
+    b = Batch()
+
+    def one(K, kind, form, v, spell, vform='literal'):
+        """kind: 'constraint' (`constraint n = K;`) or 'let' (`let n = <exemplar>;`); spell: None, 'first', 'last' (the reached
+        constraint is one alternative next to the literal "zz9")"""
+        pre = []
+        inner = csrc(K, pre)
+        defs = pre + ['%s n = %s;' % (kind, inner)]
+        path = os.path.join(libdir, 'l%d.ucg' % len(files))
+        stmts, expr, libtext = reach(form, defs, 'n', path)
+        used = None
+        if libtext is not None:
+            if libtext in files:
+                path = files[libtext]
+                stmts, expr, libtext = reach(form, defs, 'n', path)
+            else:
+                files[libtext] = path
+                open(path, 'w').write(libtext)
+            used = {path: libtext}
+        oracle = K
+        if spell:
+            arms = [('named', K), ('ex', SPELL_ARM)]
+            oracle = ('alt', arms if spell == 'first' else arms[::-1])
+            expr = '%s | %s' % (expr, vsrc(SPELL_ARM)) if spell == 'first' else '%s | %s' % (vsrc(SPELL_ARM), expr)
+        vpre, vexpr = exact_forms(v)[vform]
+        b.add_program('\n'.join(stmts + vpre + ['let x :: %s = %s;' % (expr, vexpr)]), admits(oracle, v), 'constraint reached by %s%s, value %s' % (form, ' as an alternative' if spell else '', vform), used)
+
+    try:
+        for form in REACH_FORMS:
+            checked = REACH_RANGES + REACH_ALTS
+            ks = [(K, 'constraint') for K in (checked if thorough else [rnd.choice(REACH_RANGES[:5]), rnd.choice(REACH_RANGES[5:]), rnd.choice(REACH_ALTS[:4]), rnd.choice(REACH_ALTS[4:])])]
+            if form not in LOOSE_REACH:         # a pure exemplar is checked statically only: keep clear of the KNOWN class of unknown static types
+                exs = REACH_EXEMPLARS if thorough else rnd.sample(REACH_EXEMPLARS, 2)
+                ks += [(('ex', e), rnd.choice(['constraint', 'let']) if not thorough else k) for e in exs for k in (['constraint', 'let'] if thorough else [None])]
+            for K, kind in ks:
+                vals = reach_values(K, rnd, None if thorough else 6)
+                for v in vals:
+                    one(K, kind, form, v, None)
+                if K[0] != 'ex':
+                    for v in (vals if thorough else rnd.sample(vals, min(3, len(vals)))) + [SPELL_ARM]:
+                        one(K, kind, form, v, rnd.choice(['first', 'last']))
+                if thorough:
+                    for v in rnd.sample(vals, min(3, len(vals))):
+                        one(K, kind, form, v, None, rnd.choice(sorted(set(exact_forms(v)) - {'literal', 'module'})))
+        # bounds of an inline range spelled by names / expressions instead of literals (the bound is what the expression evaluates to)
+        for (lo, hi) in [(1, 3), (-2, 2), (0, 0)] + ([(1, 65535), (5, 7)] if thorough else []):
+            for los, his, pre in [('lo', 'hi', ['let lo = %s;' % vsrc(I(lo)), 'let hi = %s;' % vsrc(I(hi))]), ('(%s + 1)' % vsrc(I(lo - 1)), '(%s - 1)' % vsrc(I(hi + 1)), []),
+                                  ('bt.lo', 'bt.hi', ['let bt = {lo = %s, hi = %s};' % (vsrc(I(lo)), vsrc(I(hi)))])]:
+                for v in range_values('int', lo, hi):
+                    b.add_program('\n'.join(pre + ['let x :: in %s..%s = %s;' % (los, his, vsrc(v))]), in_range(('rng', 'int', lo, hi), v), 'range bounds spelled as expressions')
+        return b.run('named_reach',
+                     '%d ways to reach a named constraint in constraint position (bare / parenthesised name, let / constraint alias, tuple field [plain, quoted, nested, copied, in a list], '
+                     'list element, function result, select, module parameter / output / field, imported file [field, inline import, alias, nested, via tuple, via function], and 4 of unknown static '
+                     'type [identity function, function of a field, two-branch select, mixed list]) x %s of (%d ranges, %d alternations [each also as first / last alternative next to a literal], '
+                     '%d exemplars by `constraint` and by `let`) x %s; int range bounds spelled by names, arithmetic, tuple fields'
+                     % (len(REACH_FORMS), 'all' if thorough else 'seeded 4 + 2', len(REACH_RANGES), len(REACH_ALTS), len(REACH_EXEMPLARS),
+                        'all deciding values (lo-1, lo, hi, hi+1, every literal and its neighbours, other types), literal and 3 computed' if thorough else '6 seeded deciding values'))
+    finally:
+        shutil.rmtree(libdir, ignore_errors=True)
+
+
+STANDINS = [standin_exemplar_shapes, standin_range_bounds, standin_alternations, standin_recursive_documented, standin_named_reach]
